@@ -163,6 +163,10 @@ def classify(unit, out, res, diags, stderr):
         if asm_line and 0 < asm_line <= len(out.lines):
             text = out.lines[asm_line - 1].strip()[:160]
         implicit = bool(fn) and label == implicit_label(fn, unit)
+        if implicit and unit.get("implicit") == "nondeciding":
+            # units that only decide labelled obligations (CL03 generators: no panic-freedom property applies)
+            notes.append({"nondeciding_implicit": label, "site": site, "message": msg})
+            continue
         failures.append({"label": label, "fn": fn, "message": msg, "site": site, "asm_line": asm_line, "text": text, "clause_src": contract_src,
                          "implicit": implicit, "fn_labels": sorted(fn_labels.get(fn, [])) if fn else []})
     if vr.get("errors", 0) > 0 and not failures:
